@@ -87,3 +87,35 @@ theorem step_config (env : Env) (w : World) (op : Op) :
   | damage d => simp [step, trackCfg]
 
 end Updater
+
+namespace Updater
+
+/-- Variant with a hypothesis on every operation of the history. -/
+theorem Monitor.run_none_of_inv' {σ} (m : Monitor σ) (env : Env) (Inv : World → σ → Prop) (P : Op → Prop)
+    (hstep : ∀ w g op pre, P op → Inv w g → ShowsDisk w pre →
+      firstFail (m.checks env g op pre (postView env w op)) = none ∧
+      Inv (step env w op).1 (m.next env g op pre (postView env w op))) :
+    ∀ (ops : List Op) (w : World) (g : σ) (k : Nat) (pre : View), (∀ op ∈ ops, P op) → Inv w g → ShowsDisk w pre →
+      m.run env g k pre (viewTrace env w ops) = none := by
+  intro ops
+  induction ops with
+  | nil => intro w g k pre _ _ _; simp [viewTrace, Monitor.run]
+  | cons op ops ih =>
+    intro w g k pre hP hinv hshow
+    have h := hstep w g op pre (hP op List.mem_cons_self) hinv hshow
+    simp only [viewTrace, Monitor.run]
+    have h1 : firstFail (m.checks env g op pre ((step env w op).1.view (step env w op).2.1 (step env w op).2.2)) = none := h.1
+    rw [h1]
+    exact ih (step env w op).1 _ (k + 1) _ (fun o ho => hP o (List.mem_cons_of_mem _ ho)) h.2 (showsDisk_view _ _ _)
+
+theorem Monitor.accepts_of_inv' {σ} (m : Monitor σ) (env : Env) (libs : List (String × Bytes))
+    (Inv : World → σ → Prop) (P : Op → Prop) (h0 : Inv (World.fresh libs) m.init)
+    (hstep : ∀ w g op pre, P op → Inv w g → ShowsDisk w pre →
+      firstFail (m.checks env g op pre (postView env w op)) = none ∧
+      Inv (step env w op).1 (m.next env g op pre (postView env w op)))
+    (ops : List Op) (hP : ∀ op ∈ ops, P op) : m.accepts env (viewTrace env (World.fresh libs) ops) = true := by
+  unfold Monitor.accepts
+  rw [Monitor.run_none_of_inv' m env Inv P hstep ops _ _ 0 View.empty hP h0 (showsDisk_empty libs)]
+  rfl
+
+end Updater
